@@ -121,11 +121,11 @@ def build_table(p):
     if mal == "bad_label":
         li = [c.lower() for c in cols].index("label")
         j = rng.randrange(n)
-        rows[j][li] = rng.choice([2, -2, 5])
+        rows[j][li] = rng.choice([2, -2, 5, 255, 256, 257, -255, -257, 511, 1000, 65537])
         for r in rows:  # bool labels cannot carry an out-of-range value
             if isinstance(r[li], bool):
                 r[li] = 1 if r[li] else -1
-        rows[j][li] = rng.choice([2, -2, 5])
+        rows[j][li] = rng.choice([2, -2, 5, 255, 256, 257, -255, -257, 511, 1000, 65537])
     elif mal and mal.startswith("drop:"):
         want = mal.split(":", 1)[1]
         i = [c.lower() for c in cols].index(want)
